@@ -58,6 +58,7 @@ DAILY_BASE = {
     "gaps":  ("2019-01-01", 365, TZ, CURVE_A, 1.0),
     "poor":  ("2019-01-01", 365, TZ, None, 0.0),
     "east":  ("2019-01-01", 365, TZ_OTHER, CURVE_A, 1.0),
+    "netpoor": ("2019-01-01", 365, TZ, None, 0.0),       # a net-metered building that exports more than it draws: spiky usage, mean below zero
     "tgaps": ("2019-01-01", 365, TZ, CURVE_A, 1.0),      # temperature missing for short spells (hourly: 3 afternoon hours on 60 days; daily: 12 days), usage complete
 }
 # weather id -> (start, days, tz)
@@ -155,7 +156,9 @@ def build(fam, kind, name, obs_variant="orig", ghi=False, supp=False):
         if kind == "baseline":
             start, days, tz, curve, noise = DAILY_BASE[name]
             idx, T = daily_weather(start, days, tz, "b" + name)
-            if curve is None:
+            if curve is None and name == "netpoor":
+                obs = _rng("P" + tag).normal(-1.0, 10.0, days) ** 3 / 20.0
+            elif curve is None:
                 obs = np.abs(_rng("P" + tag).standard_cauchy(days)) * 30 + 1.0
             else:
                 obs = daily_usage(T, idx, curve, noise, tag)
@@ -180,7 +183,9 @@ def build(fam, kind, name, obs_variant="orig", ghi=False, supp=False):
             start, days, tz, curve, noise = DAILY_BASE[name]
             idx, T = hourly_weather(start, days, tz, "b" + name)
             hc = HCURVE_B if name == "other" else HCURVE_A
-            if curve is None:
+            if curve is None and name == "netpoor":
+                obs = _rng("P" + tag).normal(-1.0, 10.0, len(idx)) ** 3 / 200.0
+            elif curve is None:
                 obs = np.abs(_rng("P" + tag).standard_cauchy(len(idx))) * 3 + 0.1
             else:
                 obs = hourly_usage(T, idx, hc, 0.1, tag)
